@@ -124,6 +124,15 @@ fn configs(tier: Tier) -> Vec<Config> {
         answer: vec![("D".into(), V::Num(1)), ("Q".into(), V::Num(5))],
         last: vec![l(1), l(0), l(1), l(7)],
     });
+    v.push(Config {
+        name: "vii-b: as vii with the input D_out in front of the bidirectional D in the signal list",
+        sigs: vec![Sig::inp("D_out", 1, 0), Sig::out("Q", 4), Sig::bidir("D", 1, V::Z), Sig::inp("CLK", 1, 0)],
+        header: vec!["D".to_string(), "D_out".to_string(), "CLK".to_string(), "Q".to_string()],
+        menus: vec![one_bit_in(), one_bit_in(), one_bit_in(), exp()],
+        bits_pairs: vec![0, 1],
+        answer: vec![("D".into(), V::Num(1)), ("Q".into(), V::Num(5))],
+        last: vec![l(1), l(0), l(1), l(7)],
+    });
     if tier == Tier::Thorough {
         v.push(Config {
             name: "v: five one-bit inputs (up to 5 X: 32 assignments), wide input, two outputs, permuted signal list",
